@@ -143,6 +143,11 @@ def main():
             json.dump(meta, open(os.path.join(cdir, "meta.json"), "w"))
             continue
         try:
+            # defence in depth: the code under test writes below /etc and touches /dev/uinput; both must be the private ones
+            if os.stat("/etc").st_dev == os.stat(os.path.join(stash, "etc")).st_dev or not os.path.ismount("/etc"):
+                raise RuntimeError("/etc is not the private copy")
+            if os.stat("/dev").st_dev == os.stat(os.path.join(stash, "dev")).st_dev or not os.path.ismount("/dev"):
+                raise RuntimeError("/dev is not the private tmpfs")
             pre = case.get("pre", {})
             # a previous installation must not survive in the copy
             for p in OUT_FILES.values():
